@@ -252,6 +252,7 @@ def tset_case(draw):
         jp = dict(xjumplo=lo, xjumphi=hi, xjumpval=draw(st.sampled_from([0.5, -1.25, 3.0, 0.0])))
     return dict(ntr=ntr, nx=nx, nc=nc, func=func, xkind=xkind, rows=rows, coeff=coeff, jump=jp, ykind=draw(st.sampled_from(['exact', 'noisy'])),
                 xminmax=draw(st.sampled_from([None, None, 'wider', 'xmin-only', 'xmax-only'])), xedge=draw(st.sampled_from([2.0, 0.5, 2.25, -1.5])), rerange=draw(st.sampled_from([None, None, [2.0, 3.0], [0.0, 10.0]])), zeros=draw(st.lists(st.integers(0, ntr * nx - 1), max_size=5, unique=True)),
+                inmask=draw(st.lists(st.integers(0, ntr * nx - 1), max_size=4, unique=True)) if draw(st.booleans()) else [], spoil=draw(st.booleans()),
                 noise=[draw(uf) for _ in range(8)], xorder=draw(st.sampled_from(['asc', 'asc', 'desc', 'shuffled'])), xdtype=draw(st.sampled_from(['f8', 'f8', 'i8', 'i4', 'u1', 'i2', 'u2'])) if xkind == 'grid' else 'f8')
 
 
@@ -303,7 +304,22 @@ def tset_body(case):
         xdt = 'i8'            # (positions that do not fit the narrow type)
     Xarg = X.astype(xdt)
     note_label('xdtype:' + xdt)
-    tset = call(xy2traceset, Xarg.copy(), Y.copy(), invvar=iv.copy(), **kw)
+    # round 11: points flagged bad through `inmask` (with a positive inverse variance) count as zero-weight points; the values at
+    # zero-weight points of either kind may be anything (here: far off the curve) without influence on the fit
+    Yin = Y.copy()
+    if case.get('inmask'):
+        im = np.ones(X.shape, dtype=bool)
+        im.ravel()[case['inmask']] = False
+        kw['inmask'] = im
+        iv_eff = iv * im
+        note_label('inmask-flags-weighted-points')
+    else:
+        iv_eff = iv
+    if case.get('spoil') and (iv_eff == 0).any():
+        Yin[iv_eff == 0] += 37.0 * (1.0 + np.abs(Y).max())
+        note_label('zero-weight-values-far-off')
+    tset = call(xy2traceset, Xarg.copy(), Yin.copy(), invvar=iv.copy(), **kw)
+    iv = iv_eff
     with judge('traceset'):
         check(isinstance(tset, TraceSet), 'tset:type')
         coeff = np.asarray(tset.coeff, dtype='f8')
@@ -363,6 +379,15 @@ def tset_body(case):
         check(bool(np.all(xd[:, -1] <= xmax + 1e-9) and np.all(xd[:, -1] > xmax - 1.0 - 1e-9)), 'tset:default-grid-does-not-span-to-xmax')
         refd = np.array([ref_basis(func, xnorm(xd[t], True), nc).T.dot(coeff[t]) for t in range(ntr)])
         check(bool(np.all(np.abs(np.asarray(yd, dtype='f8') - refd) <= 1e-9 * max(scale, np.abs(refd).max()))), 'tset:default-grid-values-wrong')
+    if jp:
+        # round 11: the default grid evaluated without the jump
+        xj, yj = call(traceset2xy, tset, ignore_jump=True)
+        with judge('default-grid-ignore-jump'):
+            xj = np.asarray(xj, dtype='f8')
+            check(xj.shape == xd.shape and bool(np.array_equal(xj, xd)), 'tset:default-grid-changes-with-ignore_jump')
+            refj = np.array([ref_basis(func, xnorm(xj[t], False), nc).T.dot(coeff[t]) for t in range(ntr)])
+            check(bool(np.all(np.abs(np.asarray(yj, dtype='f8') - refj) <= 1e-9 * max(scale, np.abs(refj).max()))), 'tset:ignore_jump-not-honoured-on-the-default-grid',
+                  lambda: dict(maxdev=float(np.abs(np.asarray(yj, dtype='f8') - refj).max())))
 
 
 def tset_classify(case):
